@@ -175,7 +175,7 @@ def stepChain (pr : ChainProg) (toks : List String) : ChainProg × String :=
                             fee2 := (if kvOf rest "fee2" == "" then 0 else intOf rest "fee2"),
                             mutn := (let m := kvOf rest "mut"
                                      if m == "nilint" then "garbage"   -- the amount is absent from the wire: ValidateBasic panics, the tx is refused
-                                     else if m == "msswap" || m == "msdrop" || m == "msdup" || m == "msg" || m == "chain" then "sig"
+                                     else if m == "msswap" || m == "msdrop" || m == "msdup" || m == "siglong" || m == "msg" || m == "chain" then "sig"
                                      else if m == "memosp" || m == "memopre" then "memo" else m), id := " ".intercalate rest }
             .tx (if mode == "check" then Mode.check else if mode == "simulate" then Mode.simulate else Mode.deliver) t
         | _ => none
